@@ -376,7 +376,7 @@ def _routing(col, rule="C08.R6"):
         carried = any(a[:1] == ("rec",) or S.contains(a, lambda t: t[:1] == ("rec",)) for a in S.alts(m["t"])) or len(S.alts(m["t"])) > 1
         ok = m["r"] == ("elem", va[0]) and sx.sym.loops(ev.nid) == (va[0],) and carried and not sx.conds(ev.nid)
     views = sx.calls_some(("call", ("glob", "_View"), S.V("a"), S.ANY))
-    ok = ok and len(views) == 1 and len(views[0][1]["a"]) == 3
+    ok = ok and len(views) == 1 and S.call_args(views[0][0].term, ("data", "index", "nrows")) is not None
     col.add(rule, "_RowView._make_view#left-to-right", ok, sx.loc(sx.fn),
             "a tuple of selectors is applied left to right, each to the table produced by the previous one", "")
     sx = tctx(repo, "get_indices", "_View")
@@ -429,8 +429,9 @@ def _name_spans(col, rule="C08.R7"):
         raise AnalysisError("Table._get_row_indices: name-span branch `slice(start, stop)` not recognised (cannot decide)")
     col_ = ("sub", DATA, step)
     for r, m in spans:
-        a_ok = all(a in (start, S.mcall(S.SELF, "_get_row_index", start), S.mcall(S.SELF, "_get_row_where_col", col_, start)) for a in S.instances(m["a"]))
-        b_ok = all(b in (stop, ("op", "+", S.mcall(S.SELF, "_get_row_index", stop), ("const", "1")),
+        NONE = ("const", "None")
+        a_ok = all(a in (start, NONE, S.mcall(S.SELF, "_get_row_index", start), S.mcall(S.SELF, "_get_row_where_col", col_, start)) for a in S.instances(m["a"]))
+        b_ok = all(b in (stop, NONE, ("op", "+", S.mcall(S.SELF, "_get_row_index", stop), ("const", "1")),
                          ("op", "+", S.mcall(S.SELF, "_get_row_where_col", col_, stop), ("const", "1"))) for b in S.instances(m["b"]))
         col.add(rule, "Table._get_row_indices#name-span-stop-inclusive", a_ok and b_ok, sx.loc(r),
                 "the stop name of a span a:b resolves to its position + 1 (inclusive), the start name to its position",
